@@ -70,7 +70,9 @@ def main():
     dst = os.path.join(VERIF, 'seeded', '%s-%s' % (prop, suffix))
     os.makedirs(dst, exist_ok=True)
     shutil.copy(patch, os.path.join(dst, 'patch.diff'))
-    shutil.copy(os.path.join(src, demo), os.path.join(dst, demo))
+    for f in os.listdir(src):
+        if f not in ('patch.diff', 'meta.txt') and os.path.isfile(os.path.join(src, f)):
+            shutil.copy(os.path.join(src, f), os.path.join(dst, f))
     notes = os.path.join(src, 'meta.txt')
     if os.path.exists(notes):
         shutil.copy(notes, os.path.join(dst, 'agent-notes.txt'))
